@@ -79,7 +79,7 @@ func runC18(in *Sx) *Sx {
 	var rawOut, rawList *Sx
 	if r := in.Field("raw"); r != nil {
 		name := r.Args()[1].Bytes()
-		f.Get("/rawq", func(c flamego.Context) {
+		f.Any("/rawq", func(c flamego.Context) {
 			defer func() {
 				if r := recover(); r != nil {
 					panicked = true
@@ -124,7 +124,15 @@ func runC18(in *Sx) *Sx {
 	w := &wireWriter{hdr: http.Header{}}
 	f.ServeHTTP(w, &http.Request{Method: "GET", URL: u, Header: http.Header{}, Proto: "HTTP/1.1"})
 	if r := in.Field("raw"); r != nil && !panicked {
-		f.ServeHTTP(&wireWriter{hdr: http.Header{}}, &http.Request{Method: "GET", URL: &url.URL{Path: "/rawq", RawQuery: r.Args()[0].Bytes()}, Header: http.Header{}, Proto: "HTTP/1.1"})
+		rq := &http.Request{Method: "GET", URL: &url.URL{Path: "/rawq", RawQuery: r.Args()[0].Bytes()}, Header: http.Header{}, Proto: "HTTP/1.1"}
+		if len(r.Args()) > 2 { // a form body that carries the same names: the Query* accessors answer from the URL alone
+			body := url.Values{r.Args()[1].Bytes(): {"from-body"}, "q": {"from-body"}}.Encode()
+			rq.Method = "POST"
+			rq.Header.Set("Content-Type", "application/x-www-form-urlencoded")
+			rq.Body = io.NopCloser(strings.NewReader(body))
+			rq.ContentLength = int64(len(body))
+		}
+		f.ServeHTTP(&wireWriter{hdr: http.Header{}}, rq)
 		if rawOut != nil {
 			out = append(out, rawOut, rawList)
 		}
@@ -228,7 +236,11 @@ func genC18(rng *rand.Rand, n int, tier string, emit func(*Sx)) {
 					pieces = append(pieces, keys[rng.Intn(len(keys))]+"="+[]string{"1", "", "zz", "-5"}[rng.Intn(4)])
 				}
 			}
-			in.List = append(in.List, T("raw", X(strings.Join(pieces, "&")), X(keys[rng.Intn(len(keys))])))
+			raw := T("raw", X(strings.Join(pieces, "&")), X(keys[rng.Intn(len(keys))]))
+			if rng.Intn(3) == 0 {
+				raw.List = append(raw.List, T("body"))
+			}
+			in.List = append(in.List, raw)
 		}
 		emit(in)
 	}
